@@ -33,8 +33,12 @@ for d in sorted(os.listdir(root)):
     json.dump(meta, open(os.path.join(p, 'meta.json'), 'w'), indent=1)
     rows.append((d, am.get('summary', '')[:110].replace('|', '/'), ' '.join('%s:%s' % (k, v['result']) for k, v in res.items())))
     print(d, res, flush=True)
-if not only:
-    with open(os.path.join(root, 'MATRIX.md'), 'w') as f:
-        f.write('| mutant | what it changes | quick-tier result |\n|---|---|---|\n')
-        for r in rows:
-            f.write('| %s | %s | %s |\n' % r)
+# MATRIX.md is rebuilt from every meta.json (so partial re-runs keep it complete)
+with open(os.path.join(root, 'MATRIX.md'), 'w') as f:
+    f.write('| mutant | what it changes | quick-tier result |\n|---|---|---|\n')
+    for d in sorted(os.listdir(root)):
+        mp = os.path.join(root, d, 'meta.json')
+        if not os.path.exists(mp):
+            continue
+        m = json.load(open(mp))
+        f.write('| %s | %s | %s |\n' % (d, m.get('summary', '')[:110].replace('|', '/').replace('\n', ' '), ' '.join('%s:%s' % (k, v['result']) for k, v in m.get('checks_run', {}).items())))
